@@ -38,7 +38,7 @@ func c01Gen(t *rapid.T, r *h.Rec) c01Case {
 	switch kind {
 	case "sqlcrud":
 		c.Sets = rapid.Bool().Draw(t, "sets")
-		c.Spec = synth.GenSQL(t, &synth.SQLOpts{Avoid: av, OnExclude: onEx, OnClass: onCl, ForeignIDs: true, SelfFK: true})
+		c.Spec = synth.GenSQL(t, &synth.SQLOpts{Avoid: av, OnExclude: onEx, OnClass: onCl, ForeignIDs: true, SelfFK: true, ForeignFileTables: true})
 	default:
 		o := &synth.Opts{Avoid: av, OnExclude: onEx, OnClass: onCl,
 			Pointers: true, Unions: 1, RareBasics: true, Recursion: true, SubPkgs: true, Generics: true, Aliases: true,
